@@ -111,6 +111,7 @@ func buildTagFields(rt reflect.Type, out, pretty, embedded, omitEmpty bool) (fa 
 			}
 		} else {
 			asString := false
+			optOmit := omitEmpty
 			omitEmpty := omitEmpty // an omitempty tag applies to this field only
 			key := f.Name
 			if tag, ok := f.Tag.Lookup("json"); ok && 0 < len(tag) {
@@ -137,6 +138,10 @@ func buildTagFields(rt reflect.Type, out, pretty, embedded, omitEmpty bool) (fa 
 				}
 			}
 			fa = append(fa, newFinfo(&f, key, omitEmpty, asString, pretty, embedded))
+			if nf := fa[len(fa)-1]; nf.elem != nil && omitEmpty != optOmit {
+				// the tag is about this field, not about the members of its value
+				nf.elem = newFinfo(&f, key, optOmit, asString, pretty, embedded).elem
+			}
 		}
 	}
 	return
